@@ -12,7 +12,7 @@ From Coq Require Import List ZArith NArith Bool.
 From Coq.Strings Require Import Byte.
 From L4.gen Require Import Consts.
 From L4.model Require Import GoBase CodecBase CodecWireGuard CodecWinbox CodecRdp.
-From L4.proofs Require Import CodecWireGuardProofs CodecWinboxProofs CodecWinboxCodecProofs CodecWinboxMatchProofs CodecRdpMatchProofs CodecRdpRefProofs.
+From L4.proofs Require Import CodecWireGuardProofs CodecWinboxProofs CodecWinboxCodecProofs CodecWinboxMatchProofs CodecRdpMatchProofs CodecRdpRefProofs CodecRdpDecideProofs CodecRdpRoutingProofs.
 Import ListNotations.
 Local Open Scope nat_scope.
 
@@ -47,6 +47,82 @@ Theorem C14_rdp_match_framing_partial : forall c b, rdp_match c b = Yes ->
 Proof. exact rdp_match_yes_framing. Qed.
 Theorem C14_rdp_payload_decision_is_yes_or_no : forall c x payload, rdp_decide c x payload = Yes \/ rdp_decide c x payload = No.
 Proof. exact rdp_decide_yes_no. Qed.
+
+(* ---- RDP, the payload: independent reference = abstract message + encoder + filter predicates ----
+   A payload is [routing element, ending at the first CR LF] ++ [what follows].  What follows is nothing, a
+   negotiation request, or a negotiation request announcing a correlation info + that correlation info
+   (tailmsg / enc_tail / wf_tail); the routing element is absent, a cookie "Cookie: mstshash=<hash>", a custom
+   info text, or a routing token carrying "Cookie: msts=<ip>.<port>.0000" (enc_cookie / enc_custom / enc_token);
+   the filter options are text_passes (cookie_hash[_regexp], custom_info[_regexp]), token_passes (cookie_ips,
+   cookie_ports) and the mutual exclusion of the three families (no_*_filter). *)
+
+(* every configuration, every byte string: Match = Yes exactly for a framed payload of 1..248 bytes whose
+   routing part is accepted and whose remainder is a well-formed tail *)
+Theorem C14_rdp_match_iff_ref : forall c b,
+  rdp_match c b = Yes <->
+  exists payload, 1 <= length payload <= 248 /\ b = rdp_frame payload /\
+    routing_accepts c (ref_x224 (length b)) (firstn (find_crlf 0 payload) payload) = true /\
+    exists t, wf_tail t /\ skipn (find_crlf 0 payload) payload = enc_tail t.
+Proof. exact rdp_match_iff_ref. Qed.
+Theorem C14_rdp_payload_splits_at_first_crlf : forall c x payload,
+  rdp_decide c x payload = Yes <->
+  routing_accepts c x (firstn (find_crlf 0 payload) payload) = true /\ tail_decide (skipn (find_crlf 0 payload) payload) = Yes.
+Proof. exact rdp_decide_iff. Qed.
+(* what follows the routing element, for every byte string *)
+Theorem C14_rdp_tail_iff_ref : forall tail, tail_decide tail = Yes <-> exists t, wf_tail t /\ tail = enc_tail t.
+Proof. exact tail_decide_iff. Qed.
+(* the flag / protocol formulas of the code are the documented sets, on every value the fields can hold *)
+Theorem C14_rdp_negreq_fields_iff_ref : forall r, (nr_flags r < 256)%N ->
+  negreq_ok r = (nr_type r =? 1)%N && (nr_length r =? 8)%N && flags_ok (nr_flags r) && protos_ok (nr_protocols r).
+Proof. exact negreq_ok_ref. Qed.
+
+(* per kind of routing element: match (encode msg) = Yes <-> passes cfg msg /\ the rest is a well-formed tail;
+   the premises are the well-formedness of the routing element (text without CR, sizes) - [tail] is ANY byte string *)
+Theorem C14_rdp_none_match_iff_ref : forall c tail, find_crlf 0 tail = 0 -> 1 <= length tail <= 248 ->
+  (rdp_match c (rdp_frame tail) = Yes <-> no_hash_filter c /\ no_ipport_filter c /\ no_info_filter c /\ tail_ref tail).
+Proof. exact rdp_none_iff. Qed.
+Theorem C14_rdp_cookie_match_iff_ref : forall c hash tail,
+  hash <> [] -> forallb nocr hash = true -> length (enc_cookie hash ++ tail) <= 248 ->
+  (rdp_match c (rdp_frame (enc_cookie hash ++ tail)) = Yes <->
+   text_passes (cfg_hash c) (rc_hash_rx c) hash /\ no_ipport_filter c /\ no_info_filter c /\ tail_ref tail).
+Proof. exact rdp_cookie_iff. Qed.
+Theorem C14_rdp_custom_match_iff_ref : forall c info tail,
+  info <> [] -> forallb nocr info = true -> length (enc_custom info ++ tail) <= 248 ->
+  has_prefix info cookie_prefix = false -> nth 0 info x00 <> x03 ->
+  (rdp_match c (rdp_frame (enc_custom info ++ tail)) = Yes <->
+   no_hash_filter c /\ no_ipport_filter c /\ text_passes (cfg_info c) (rc_info_rx c) info /\ tail_ref tail).
+Proof. exact rdp_custom_iff. Qed.
+Theorem C14_rdp_token_match_iff_ref : forall c ipd portd tail,
+  digits_ok ipd two32 = true -> digits_ok portd two16 = true -> 4 <= length ipd + length portd <= 17 -> length tail <= 199 ->
+  (rdp_match c (rdp_frame (enc_token ipd portd ++ tail)) = Yes <->
+   no_hash_filter c /\ token_passes c ipd portd /\ no_info_filter c /\ tail_ref tail).
+Proof. exact rdp_token_iff. Qed.
+
+(* nothing follows the correlation info, nor a negotiation request that does not announce one: every
+   configuration, every routing part R ending at the first CR LF (or empty), every well-formed tail, every junk *)
+Theorem C14_rdp_nothing_after_corrinfo : forall c x R f p id junk,
+  wf_tail (TNegCorr f p id) -> junk <> [] -> find_crlf 0 (R ++ enc_tail (TNegCorr f p id) ++ junk) = length R ->
+  rdp_decide c x (R ++ enc_tail (TNegCorr f p id) ++ junk) <> Yes.
+Proof. exact rdp_trailing_after_corrinfo_rejected. Qed.
+Theorem C14_rdp_nothing_after_negreq_without_flag : forall c x R f p junk,
+  wf_tail (TNeg f p) -> junk <> [] -> find_crlf 0 (R ++ enc_tail (TNeg f p) ++ junk) = length R ->
+  rdp_decide c x (R ++ enc_tail (TNeg f p) ++ junk) <> Yes.
+Proof. exact rdp_trailing_after_negreq_rejected. Qed.
+
+(* non-vacuity: the premises of the per-kind theorems hold for ordinary requests, and both outcomes occur *)
+Definition ipd_10_0_0_10 : list byte := [x31; x36; x37; x37; x37; x32; x31; x37; x30].   (* "167772170" *)
+Definition portd_3389 : list byte := [x31; x35; x36; x32; x39].                          (* "15629" *)
+Definition cfg_none := {| rc_hash := []; rc_hash_rx := None; rc_ips := []; rc_ports := []; rc_info := []; rc_info_rx := None |}.
+Example C14_rdp_ref_nonvacuous :
+  wf_tail (TNeg 0 3) /\ wf_tail (TNegCorr 11 31 (repeat x11 16)) /\ ~ wf_tail (TNeg 4 3) /\ ~ wf_tail (TNeg 0 2) /\
+  digits_ok ipd_10_0_0_10 two32 = true /\ digits_ok portd_3389 two16 = true /\ token_ip ipd_10_0_0_10 = 167772170%N /\ token_port portd_3389 = 3389%N /\
+  find_crlf 0 (enc_tail (TNegCorr 8 3 (repeat x11 16))) = 0 /\
+  rdp_match cfg_none (rdp_frame (enc_token ipd_10_0_0_10 portd_3389 ++ enc_tail (TNeg 0 3))) = Yes /\
+  rdp_match {| rc_hash := []; rc_hash_rx := None; rc_ips := [P4 167772160 8]; rc_ports := [3390%N]; rc_info := []; rc_info_rx := None |}
+            (rdp_frame (enc_token ipd_10_0_0_10 portd_3389 ++ enc_tail (TNeg 0 3))) = No /\
+  rdp_match cfg_none (rdp_frame (enc_cookie [x61; x62] ++ enc_tail (TNegCorr 8 1 (repeat x11 16)))) = Yes /\
+  rdp_match cfg_none (rdp_frame (enc_custom [x6c; x62] ++ enc_tail TNone)) = Yes.
+Proof. vm_compute. repeat split; try discriminate; try (intros (H & _); discriminate); try (intros (_ & _ & _ & H); discriminate). Qed.
 
 (* the payload decision on concrete requests: each optional element and each filter family *)
 Definition c0 := {| rc_hash := []; rc_hash_rx := None; rc_ips := []; rc_ports := []; rc_info := []; rc_info_rx := None |}.
@@ -98,5 +174,16 @@ Print Assumptions C14_winbox_username_grammar_is_documented.
 Print Assumptions C14_winbox_two_char_username_matches.
 Print Assumptions C14_rdp_match_framing_partial.
 Print Assumptions C14_rdp_payload_decision_is_yes_or_no.
+Print Assumptions C14_rdp_match_iff_ref.
+Print Assumptions C14_rdp_payload_splits_at_first_crlf.
+Print Assumptions C14_rdp_tail_iff_ref.
+Print Assumptions C14_rdp_negreq_fields_iff_ref.
+Print Assumptions C14_rdp_none_match_iff_ref.
+Print Assumptions C14_rdp_cookie_match_iff_ref.
+Print Assumptions C14_rdp_custom_match_iff_ref.
+Print Assumptions C14_rdp_token_match_iff_ref.
+Print Assumptions C14_rdp_nothing_after_corrinfo.
+Print Assumptions C14_rdp_nothing_after_negreq_without_flag.
+Print Assumptions C14_rdp_ref_nonvacuous.
 Print Assumptions C14_rdp_examples.
 Print Assumptions C14_rdp_trailing_after_corrinfo_rejected.
